@@ -158,6 +158,7 @@ type Summary struct {
 	PathLimitHit bool
 	StatusCount map[string]int
 	MoreViol    []string
+	BudgetCases []Trace
 }
 
 type ExploreOpts struct {
@@ -248,6 +249,9 @@ func (p *Pool) explore(harness string, params map[string]int, opt ExploreOpts) *
 					sum.Dead++
 				case "budget":
 					sum.Budget++
+					if len(sum.BudgetCases) < 2 {
+						sum.BudgetCases = append(sum.BudgetCases, Trace{harness, params, r.Model, "budget", r.Msg + " at " + r.Where, nil, r.Inputs})
+					}
 					if len(sum.EngineMsgs) < 5 {
 						sum.EngineMsgs = append(sum.EngineMsgs, fmt.Sprintf("budget(%s) at %s inputs=%v", r.Msg, r.Where, r.Inputs))
 					}
